@@ -24,11 +24,38 @@ def liveR : List Ev → List Stamped
   | [] => []
   | e :: older => liveStep (liveR older) older.length e
 
-/-- Delivered and not (yet) reported removed: a removal notice for L1 block `b` means that the
-blocks from `b` on were reorged, so it retires every event delivered before it at or above `b`
-(for a provider that reports every reorged log this is the same as retiring exactly the logs
-named by notices). -/
+/-- Order on delivered events: by L1 block, then by delivery position. -/
+def lexLe (a b : Stamped) : Prop := a.2.l1 < b.2.l1 ∨ (a.2.l1 = b.2.l1 ∧ a.1 ≤ b.1)
+
+/-- What the CLIENT can still regard as valid: a removal notice for L1 block `b` retires every
+event delivered before it at or above `b` (this is `applyStateUpdate`'s deletion rule lifted to the
+whole history). It is NOT the property's notion — that is `LiveExact` below; `live ⊆ LiveExact`
+always (`live_sub_exact`), and they coincide on `Settled` traces (`live_iff_exact`). -/
 def live (tr : List Ev) : List Stamped := liveR tr.reverse
+
+/-- The removal notice `r` names the log `u` (same L1 block, same committed Starknet block). -/
+def sameLog (r u : SU) : Prop := r.l1 = u.l1 ∧ r.l2 = u.l2 ∧ r.hash = u.hash ∧ r.root = u.root
+
+/-- THE PROPERTY'S NOTION: the update `u` was delivered at position `n` and was not subsequently
+reported as removed, i.e. no later removal notice names it. -/
+def LiveExact (tr : List Ev) (n : Nat) (u : SU) : Prop :=
+  ∃ a b, tr = a ++ Ev.upd u :: b ∧ a.length = n ∧ u.removed = false ∧
+    ∀ r, Ev.upd r ∈ b → r.removed = true → ¬ sameLog r u
+
+/-- `(n, u)` is the delivered, not removed event with the highest L1 block at or below `F`
+(several events in that block: the one delivered last). -/
+def IsTopExact (F : Nat) (tr : List Ev) (n : Nat) (u : SU) : Prop :=
+  LiveExact tr n u ∧ u.l1 ≤ F ∧ ∀ m v, LiveExact tr m v → v.l1 ≤ F → lexLe (m, v) (n, u)
+
+/-- Removal-order assumption (NOT granted by the property, which only says that the removal
+notices of reorged logs are delivered): whenever a removal notice at or below the L1 block of an
+earlier delivered log has arrived, that log has been named by a notice too. It holds when all
+removal notices of a reorg arrive before the logs of the replacement chain; it fails when a
+replacement log overtakes a notice (`head_spec_needs_removal_order`). -/
+def Settled (tr : List Ev) : Prop :=
+  ∀ a u b, tr = a ++ Ev.upd u :: b → u.removed = false →
+    (∃ r, Ev.upd r ∈ b ∧ r.removed = true ∧ r.l1 ≤ u.l1) →
+    ∃ r, Ev.upd r ∈ b ∧ r.removed = true ∧ sameLog r u
 
 def finStep (f : Option Nat) : Ev → Option Nat
   | .tick F => some F
@@ -40,9 +67,6 @@ def lastFinR : List Ev → Option Nat
 
 /-- The finalised height the L1 node reported at the last poll (`none`: no poll yet). -/
 def lastFin (tr : List Ev) : Option Nat := lastFinR tr.reverse
-
-/-- Order on delivered events: by L1 block, then by delivery position. -/
-def lexLe (a b : Stamped) : Prop := a.2.l1 < b.2.l1 ∨ (a.2.l1 = b.2.l1 ∧ a.1 ≤ b.1)
 
 /-- `e` is the event of `L` with the highest L1 block at or below `F`; among several events of
 that block the one delivered last. -/
